@@ -228,9 +228,30 @@ PROPS = {
         "min": {"accepted_circle": 20000, "accepted_slider": 20000, "accepted_spinner": 10000, "accepted_hold": 5000, "rejected_lines": 20000,
                 "multi_segment_sliders": 5000, "exhaustive_type_sound_context_cases": 196608},
     },
+    "C15": {
+        "level": "exploration",
+        "rule": ("generated maps with integer times (sorted and unsorted object lines, equal start times, breaks before/between/after objects in any order, control points "
+                 "exactly on and 4/5/6 ms around object times, all modes, versions 3-128). (a) Recomputation: raw objects are obtained through the public per-line API in file "
+                 "order and post-processed by the reference (stable order, first object after each break, closed-form velocity and duration at 1e-12, sample defaults "
+                 "from the sample point active 5 ms after the end / each node) and compared with the decoder's output. (b) Metamorphic: the same map generated with every "
+                 "time shifted by s in {+-1, +-999, +-10^6, random} must decode to the same map with times shifted by s and nothing else changed. Lookups within 1e-6 ms "
+                 "of a sample point but not equal are counted as ambiguous and not judged. non-trivial = at least two hit objects; distinct by FNV-64 of the text"),
+        "assumptions": COMMON_ASSUMPTIONS + ["the decoded control points and curve distances are taken as given (checked by C12/C13 and C16/C17)",
+                                             "what a sample takes from a sample point follows SamplePoint::apply as documented (volume if 0, custom index if 0, bank if unspecified)"],
+        "quick": [leg("main", "rel", 16, 1500, timeout=600, max_secs=150)],
+        "thorough": [leg("main", "rel", 16, 62500, timeout=3600, max_secs=1700)],
+        "min": {"objects_recomputed": 50000, "sliders_recomputed": 15000, "node_sample_sets_recomputed": 50000, "shift_pairs": 20000,
+                "maps_with_unsorted_object_lines": 2000, "maps_with_equal_start_times": 2000, "breaks_followed_by_an_object": 1000,
+                "lookups_exactly_on_a_sample_point": 500},
+    },
 }
 
 MANIFEST_TEXT = {
+    "C15": {
+        "technique": "runtime monitoring: closed-form recomputation oracle over raw objects from the public per-line API + metamorphic time-shift relation",
+        "level_text": "Each generated map is post-processed independently from its raw per-line objects and compared with the decoder; each map is re-generated with shifted times and must differ in times only.",
+        "level_note": "Sampled over maps and shifts; float tolerance 1e-12 for closed forms, numerically ambiguous lookups are counted and skipped.",
+    },
     "C14": {
         "technique": "runtime monitoring: lock-step reference parser on the public per-line API with a long-lived state (buffer reuse across lines); exhaustive type x sound bytes; slider lines under Miri",
         "level_text": "Every generated line is parsed by the real parser and by an independent reference in the same context; accept/reject and all projected fields must agree. All 65536 type/sound byte pairs are enumerated in three contexts.",
